@@ -1,5 +1,6 @@
 import TeaalVerif.Driver.Util
 import TeaalVerif.HF.PyGrammar
+import TeaalVerif.Props.C09Build
 open Lean
 namespace Driver
 open HF
@@ -103,5 +104,49 @@ def precExpr (j : Json) : Except String Json := do
     return Json.mkObj (base ++ [("norm_eq", Json.bool (reprStr (norm e) == reprStr p)), ("norm", Json.str (norm e).gen),
       ("norm_repr", Json.str (reprStr (norm e))), ("python_repr", Json.str (reprStr p))])
   | .error _ => return Json.mkObj base
+
+/-! op `build_expr`: the model of `CoordAccess.build_expr` (Props/C09Build) on a SymPy tree, compared with the tree the real builder made -/
+
+def numOfJson (j : Json) : Except String (Option C09.Num) := do
+  let a ← HF.arr j
+  match ← HF.strOf a[0]! with
+  | "int" => return some (.int (← HF.intOf a[1]!))
+  | "rat" => return some (.rat (← HF.intOf a[1]!) (← HF.intOf a[2]!))
+  | _ => return none
+
+def stermOfJson (j : Json) : Except String (Option C09.STerm) := do
+  let a ← HF.arr j
+  match ← HF.strOf a[0]! with
+  | "sym" => return some (.sym (← HF.strOf a[1]!))
+  | "int" | "rat" => return (← numOfJson j).map C09.STerm.num
+  | "mul" =>
+    let args := a.toList.drop 1
+    let head ← match args.head? with
+      | some h => numOfJson h
+      | none => pure none
+    let rest := if head.isSome then args.drop 1 else args
+    let syms ← rest.mapM fun x => do
+      let b ← HF.arr x
+      if (← HF.strOf b[0]!) == "sym" then pure (some (← HF.strOf b[1]!)) else pure none
+    if syms.all Option.isSome then return some (.mul head (syms.filterMap id)) else return none
+  | _ => return none
+
+def seOfJson (j : Json) : Except String (Option C09.SE) := do
+  let a ← HF.arr j
+  match ← HF.strOf a[0]! with
+  | "add" =>
+    let ts ← (a.toList.drop 1).mapM stermOfJson
+    if ts.all Option.isSome then return some (.add (ts.filterMap id)) else return none
+  | _ => return (← stermOfJson j).map C09.SE.term
+
+def buildExprOp (j : Json) : Except String Json := do
+  let real ← exprOfJson (← fld j "tree")
+  match ← seOfJson (← fld j "sympy") with
+  | none => return Json.mkObj [("in_shape", false)]
+  | some se =>
+    match C09.build se with
+    | none => return Json.mkObj [("in_shape", true), ("built", false)]
+    | some e => return Json.mkObj [("in_shape", true), ("built", true), ("equal", Json.bool (reprStr e == reprStr real)),
+        ("model_text", Json.str e.gen), ("prec_ok", Json.bool (PrecOK e))]
 
 end Driver
